@@ -6,6 +6,7 @@ cd /repo && git status --short | grep -q . && { echo "/repo not clean"; exit 2; 
 KEEP=$(mktemp -d /tmp/evidence.keep.XXXXXX); cp -a /verif/evidence/. "$KEEP"/
 for d in /verif/seeded/*/; do
   name=$(basename $d); id=${name%%-*}
+  [ -f $d/superseded.txt ] && { echo "$name: superseded (see superseded.txt)"; continue; }
   P=$d/patch.diff; [ -f $d/patch_ported.diff ] && P=$d/patch_ported.diff
   cd /repo
   if ! git apply --check $P 2>/dev/null; then echo "$name: PATCH DOES NOT APPLY"; continue; fi
